@@ -239,10 +239,23 @@ func c23(c *engine.Ctx) {
 		}
 	}
 	if hc := c.MustFunc("C23.R2", "mtproto", "Conn.handleContainer"); hc != nil {
-		for _, call := range engine.CallsTo(hc, false, "(*mtproto.Conn).processContainerMessage") {
+		// through the small helper, or handed to handleMessage directly
+		for _, call := range engine.CallsTo(hc, false, "(*mtproto.Conn).processContainerMessage", "(*mtproto.Conn).handleMessage") {
+			if !engine.InCycle(call) {
+				continue
+			}
 			n2++
-			d := engine.Describe(engine.Args(call.Common())[2])
-			c.Check(strings.Contains(d, ".Messages["), "C23.R2", "handleContainer/each-inner-message", call.Pos(), "each inner message of the decoded container must be processed (passes %s)", d)
+			from := false
+			d := ""
+			for _, a := range engine.Args(call.Common())[1:] {
+				engine.WalkBack(a, func(v ssa.Value) bool {
+					if s := engine.Describe(v); strings.Contains(s, ".Messages[") {
+						from, d = true, s
+					}
+					return !from
+				})
+			}
+			c.Check(from, "C23.R2", "handleContainer/each-inner-message", call.Pos(), "each inner message of the decoded container must be processed (passes %s)", d)
 		}
 	}
 	c.Floor("C23.R2", 5, n2)
